@@ -23,6 +23,16 @@ fn main() {
     };
     let mut replay = None;
     let mut threads = std::thread::available_parallelism().map(|n| n.get()).unwrap_or(4).min(16);
+    if args.get(1).map(|s| s.as_str()) == Some("--silent-worker") {
+        // C14 silence check: run the workload, report through a file, never through the streams
+        std::panic::set_hook(Box::new(|_| {}));
+        let seed: u64 = std::env::var("VERIF_SEED").ok().and_then(|s| s.parse().ok()).unwrap_or(0);
+        let n = props::c14::silent_workload(seed);
+        if let Some(path) = args.get(2) {
+            let _ = std::fs::write(path, format!("done {}", n));
+        }
+        std::process::exit(0);
+    }
     let mut i = 1;
     while i < args.len() {
         match args[i].as_str() {
